@@ -3,6 +3,7 @@ import Generated.C08
 import Proofs.C08
 import Proofs.C08.World
 import Proofs.C08.Loop
+import Proofs.C08.Repair
 /-!
 # C08 — a lifecycler edits only its own ring entry and follows the state machine
 
@@ -535,6 +536,43 @@ theorem register_reuse_first_attempt_witness :
       some (.write [{ id := "a", ts := 9, state := .ACTIVE, tokens := [0], regTs := 9 }, { id := "b", ts := 9, state := .ACTIVE, tokens := [0], regTs := 9 }]) ∧
     (casRetry f [none, some fresh]).map (·.out) =
       some (.write [{ id := "a", ts := 9, state := .ACTIVE, tokens := [1], regTs := 9 }, { id := "b", ts := 9, state := .ACTIVE, tokens := [0], regTs := 9 }]) := by
+  decide
+
+/-! ### C08 ∘ C05: `verifyTokens` repairs a token clash and re-establishes the one-owner invariant
+
+C05 leaves open (`PC05.winner_depends_on_delivery_order_witness`) that replicas resolve a clash differently and names
+`verifyTokens` as the only repair. This is the repair step on the owner's side, composed with C05's invariant `C03.wf`
+(unique ids, strictly sorted token lists, LEFT entries empty, one holder per token). -/
+
+/-- A full Lifecycler runs `verifyTokens` on ANY ring `d` satisfying the C05 invariant in which its own entry `e0` no longer
+holds the remembered tokens (it lost some to a clash) and holds at most `NumTokens`: the ring it publishes has the own entry
+back at exactly `NumTokens` tokens, the surviving ones kept, none of them in ANY other entry's list (LEFT or not), every other
+entry untouched, the remembered tokens are the published ones, and the published ring satisfies the C05 invariant again.
+`hnl`: the remembered state is not LEFT (no handler ever sets it: `allowed` has no LEFT target). Any generator honouring its
+contract, any clock, any ring size. -/
+theorem verify_repairs_clash_restores_one_owner (c : Cfg) (l : Local) (file : File) (d : Desc) (now : Int) (gen : Gen)
+    (hk : c.kind = .LC) (hs : l.started = true) (hg : GenOK gen) (hw : C03.wf d = true) (e0 : Inst)
+    (hpres : Desc.get? d c.id = some e0) (hlost : sortNat e0.tokens ≠ sortNat l.tokens)
+    (hle : e0.tokens.length ≤ c.numTokens) (hnl : l.state ≠ .LEFT) :
+    ∃ d' b, (step c l file (some d) .verify now gen .none).out = .write d' ∧ Desc.get? d' c.id = some b ∧
+      b.tokens.length = c.numTokens ∧ (∀ t ∈ e0.tokens, t ∈ b.tokens) ∧
+      (∀ i ∈ d', i.id ≠ c.id → ∀ t ∈ b.tokens, t ∉ i.tokens) ∧
+      (∀ k, k ≠ c.id → Desc.get? d' k = Desc.get? d k) ∧
+      (step c l file (some d) .verify now gen .none).l.tokens = b.tokens ∧
+      C03.wf d' = true := by
+  obtain ⟨d', b, h1, h2, h3, h4, h5, h6, h7, h8⟩ :=
+    PfC08.lc_verify_repairs (file := file) (now := now) hk hs hg ((PfC05.wf_iff d).mp hw) hpres hlost hle hnl
+  exact ⟨d', b, h1, h2, h3, h4, h5, h6, h7, (PfC05.wf_iff d').mpr h8⟩
+
+/-- the hypotheses are met by concrete data: "a" remembers [3,7], lost 7 to "b" in a clash; the repair publishes [1,3] -/
+example :
+    let c : Cfg := { kind := .LC, id := "a", numTokens := 2 }
+    let l : Local := { started := true, state := .JOINING, tokens := [3, 7] }
+    let d : Desc := [{ id := "a", ts := 5, state := .JOINING, tokens := [3] }, { id := "b", ts := 5, state := .ACTIVE, tokens := [0, 7] }]
+    let gen : Gen := fun n taken => (List.range 8).filter (fun t => !taken.contains t) |>.take n.toNat
+    C03.wf d = true ∧ sortNat [3] ≠ sortNat l.tokens ∧
+    (step c l .absent (some d) .verify 9 gen .none).out =
+      .write [{ id := "a", ts := 9, state := .JOINING, tokens := [1, 3] }, { id := "b", ts := 5, state := .ACTIVE, tokens := [0, 7] }] := by
   decide
 
 end PC08
